@@ -50,7 +50,7 @@ theorem utcTime_eq' (z : Zone) (wf : WF z) (c : ZRng) (hc : CacheRng z c) (w : I
   rw [hk] at hkr
   have hB := rngAt_bounds z wf _ hw'
   rw [hk] at hB
-  have pvE : (if (rngAt z k).prev > intMin then Option.map some (findZrng z (wrap32 ((rngAt z k).prev - 1))) else some none)
+  have pvE : (if (rngAt z k).prev > intMin then Option.map some (findZrng z (clamp32 ((rngAt z k).prev - 1))) else some none)
       = some (if (rngAt z k).prev > intMin then some (rngAt z (k - 1)) else none) := by
     by_cases h : (rngAt z k).prev > intMin
     · rw [if_pos h, if_pos h]
@@ -60,9 +60,9 @@ theorem utcTime_eq' (z : Zone) (wf : WF z) (c : ZRng) (hc : CacheRng z c) (w : I
       have hi : I32 ((rngAt z k).prev - 1) := by
         have := (I32_iff _).1 hw'
         rw [I32_iff]; unfold intMin at h; omega
-      rw [wrap32_of_I32 _ hi, findZrng_eq z wf _ hi, ep, trIdx_pred z wf k k0 hkr.2]; rfl
+      rw [clamp32_of_I32 _ hi, findZrng_eq z wf _ hi, ep, trIdx_pred z wf k k0 hkr.2]; rfl
     · rw [if_neg h, if_neg h]
-  have nxE : (if (rngAt z k).next < intMax then Option.map some (findZrng z (wrap32 (rngAt z k).next)) else some none)
+  have nxE : (if (rngAt z k).next < intMax then Option.map some (findZrng z (clamp32 (rngAt z k).next)) else some none)
       = some (if (rngAt z k).next < intMax then some (rngAt z (k + 1)) else none) := by
     by_cases h : (rngAt z k).next < intMax
     · rw [if_pos h, if_pos h]
@@ -80,7 +80,7 @@ theorem utcTime_eq' (z : Zone) (wf : WF z) (c : ZRng) (hc : CacheRng z c) (w : I
           rw [rngAt_neg z _ hneg, if_pos (by omega)]; rfl
         · rw [rngAt_nonneg z k (by omega), if_pos k1]
       have hi : I32 (rngAt z k).next := by rw [en]; exact tr_I32 z wf _ (by omega)
-      rw [wrap32_of_I32 _ hi, findZrng_eq z wf _ hi, en, trIdx_succ z wf k hkr.1 k1]; rfl
+      rw [clamp32_of_I32 _ hi, findZrng_eq z wf _ hi, en, trIdx_succ z wf k hkr.1 k1]; rfl
     · rw [if_neg h, if_neg h]
   rw [pvE, nxE]
   simp only []
